@@ -58,6 +58,20 @@ pub struct Outcome {
     pub steps_done: usize,
     pub calls: u64,
     pub trace: Vec<String>,
+    /// resolved call script (for export to the Miri replayer)
+    pub script: Option<Vec<String>>,
+}
+
+fn opt(v: Option<usize>) -> String {
+    v.map_or("-".to_string(), |x| x.to_string())
+}
+fn res_code<T>(r: &llfree::Result<T>, ok: impl Fn(&T) -> String) -> String {
+    match r {
+        Ok(v) => ok(v),
+        Err(Error::Memory) => "E1".into(),
+        Err(Error::Argument) => "E3".into(),
+        Err(Error::Initialization) => "E4".into(),
+    }
 }
 impl Outcome {
     pub fn feat(&self, k: &str) -> u64 {
@@ -225,6 +239,14 @@ impl<'a> Run<'a> {
         let r = guarded(|| a.get(target.map(FrameId), req))
             .map_err(|p| self.panic_viol("get", p))?
             .map(|(f, c)| (f.0, c.0));
+        if let Some(s) = &mut self.out.script {
+            s.push(format!(
+                "G {} {order} {class} {} = {}",
+                opt(target),
+                opt(slot),
+                res_code(&r, |(f, c)| format!("{f} {c}"))
+            ));
+        }
         if let Some(t) = &self.twin {
             let r2 = guarded(|| t.alloc.get(target.map(FrameId), req))
                 .map_err(|p| self.panic_viol("twin get", p))?
@@ -248,6 +270,15 @@ impl<'a> Run<'a> {
         let req = Request::new(b.order, Class(class), slot);
         let a = &self.inst.alloc;
         let r = guarded(|| a.put(FrameId(b.frame), req)).map_err(|p| self.panic_viol("put", p))?;
+        if let Some(s) = &mut self.out.script {
+            s.push(format!(
+                "P {} {} {class} {} = {}",
+                b.frame,
+                b.order,
+                opt(slot),
+                res_code(&r, |_| "OK".into())
+            ));
+        }
         if let Some(t) = &self.twin {
             let r2 = guarded(|| t.alloc.put(FrameId(b.frame), req))
                 .map_err(|p| self.panic_viol("twin put", p))?;
@@ -264,6 +295,9 @@ impl<'a> Run<'a> {
         self.out.calls += 1;
         let a = &self.inst.alloc;
         guarded(|| a.drain()).map_err(|p| self.panic_viol("drain", p))?;
+        if let Some(s) = &mut self.out.script {
+            s.push("D".into());
+        }
         if let Some(t) = &self.twin {
             guarded(|| t.alloc.drain()).map_err(|p| self.panic_viol("twin drain", p))?;
         }
@@ -274,6 +308,21 @@ impl<'a> Run<'a> {
         let a = &self.inst.alloc;
         let (m2, c2) = (m.clone(), c.clone());
         let r = guarded(|| a.change_tree(m, c)).map_err(|p| self.panic_viol("change_tree", p))?;
+        if let Some(s) = &mut self.out.script {
+            s.push(format!(
+                "C {} {} {} {} {} = {}",
+                opt(m2.id.map(|i| i.0)),
+                opt(m2.class.map(|c| c.0 as usize)),
+                m2.free,
+                opt(c2.class.map(|c| c.0 as usize)),
+                match c2.operation {
+                    None => "N",
+                    Some(TreeOperation::Online) => "O",
+                    Some(TreeOperation::Offline) => "F",
+                },
+                res_code(&r, |_| "OK".into())
+            ));
+        }
         if let Some(t) = &self.twin {
             let r2 = guarded(|| t.alloc.change_tree(m2, c2))
                 .map_err(|p| self.panic_viol("twin change_tree", p))?;
@@ -1073,6 +1122,39 @@ impl<'a> Run<'a> {
     }
 }
 
+thread_local! {
+    /// record resolved call scripts (Miri export)
+    pub static RECORD: std::cell::Cell<bool> = const { std::cell::Cell::new(false) };
+}
+
+/// Run a case and return its resolved call script: header line + one line per API call.
+pub fn script_of(case: &SeqCase) -> Option<Vec<String>> {
+    RECORD.with(|r| r.set(true));
+    let out = run_seq(case, &Oracles::default(), false);
+    RECORD.with(|r| r.set(false));
+    if out.violation.is_some() {
+        return None;
+    }
+    let (kind, slots) = match &case.cfg.classes {
+        crate::cfg::ClassKind::Simple(s) => ("simple", s.to_vec()),
+        crate::cfg::ClassKind::Movable(s) => ("movable", s.to_vec()),
+        crate::cfg::ClassKind::Zeroed(s) => ("zeroed", s.to_vec()),
+        crate::cfg::ClassKind::Single(s) => ("single", vec![*s]),
+        crate::cfg::ClassKind::WithInvalid(_) => return None,
+    };
+    let mut lines = vec![format!(
+        "CFG {} {} {kind} {}",
+        case.cfg.frames,
+        match case.cfg.init {
+            crate::cfg::InitKind::FreeAll => "free",
+            crate::cfg::InitKind::AllocAll => "alloc",
+        },
+        slots.iter().map(|s| s.to_string()).collect::<Vec<_>>().join(" ")
+    )];
+    lines.extend(out.script?);
+    Some(lines)
+}
+
 /// Run a sequential prefix (setup of a concurrent case) and hand out allocator and model.
 pub fn run_setup(cfg: &Config, ops: &[Op]) -> Result<(Inst, Model), Violation> {
     let or = Oracles::default();
@@ -1095,7 +1177,10 @@ pub fn run_setup(cfg: &Config, ops: &[Op]) -> Result<(Inst, Model), Violation> {
         model: Model::new(cfg),
         owner: HashMap::new(),
         dirty_offline: false,
-        out: Outcome::default(),
+        out: Outcome {
+            script: RECORD.with(|r| r.get()).then(Vec::new),
+            ..Default::default()
+        },
         step: 0,
         verbose: false,
         cross_since_drain: 0,
@@ -1143,7 +1228,10 @@ pub fn run_seq(case: &SeqCase, or: &Oracles, verbose: bool) -> Outcome {
         model: Model::new(cfg),
         owner: HashMap::new(),
         dirty_offline: false,
-        out: Outcome::default(),
+        out: Outcome {
+            script: RECORD.with(|r| r.get()).then(Vec::new),
+            ..Default::default()
+        },
         step: 0,
         verbose,
         cross_since_drain: 0,
